@@ -61,6 +61,11 @@ pub enum AdapterKind {
     DuplexViaStream,
     /// the same inner object wrapped through `SinkExt::in_span`
     DuplexViaSink,
+    /// `stream.in_span(a).in_span(b)`: two adapters chained with method-call syntax; `a` is the
+    /// local parent during the calls, `b`'s scope lies around it, both end with the stream
+    StreamTwice,
+    /// the same for a sink
+    SinkTwice,
     /// a `#[trace]` function that returns a boxed future (`Box::pin(async move {..})`): the span
     /// is created by the call, under the caller's local parent, and bound to the returned future,
     /// which is polled later, possibly elsewhere (at most one per case: the span's name is fixed)
